@@ -267,6 +267,13 @@ def correspondence(exe_by_name, runs, seed, corpus_files):
 
 # ----------------------------------------------------------------------------- verdicts
 
+def parse_bad_multi(v):
+    """A driver line may carry several verdicts separated by ' ;; ' (one per property)."""
+    parts = v.split(" || ")
+    rest = (" || " + " || ".join(parts[1:])) if len(parts) > 1 else ""
+    return [parse_bad(x + rest) for x in parts[0].split(" ;; ")]
+
+
 def parse_bad(v):
     """'PROPFAIL C07 year-rule || # case h_date sched 1 5 || line' -> dict"""
     parts = v.split(" || ")
@@ -341,7 +348,7 @@ def main():
             log("harness build failed:\n" + err); log("VIOLATION property=%s replay=%s no-failing-input-found" % (pid, a.replay)); sys.exit(1)
         r = run(["lake", "build", "popsdriver"], cwd=LEAN)
         lines, verds, rc, err = replay_case(exe, (rp["engine"], rp["mode"], rp["seed"], rp["index"]))
-        bad = [parse_bad(v) for v in verds if v not in ("ok", "skip")]
+        bad = [b for v in verds if v not in ("ok", "skip") for b in parse_bad_multi(v)]
         bad = [b for b in bad if relevant(pid, cfg, b)]
         for l in lines: log("  " + l[:300])
         for b in bad: log("  -> " + b["raw"][:400])
@@ -381,7 +388,7 @@ def main():
             total["bad"].extend(t1["bad"]); total["hashes_nt"].update(t1["hashes_nt"]); total["crashes"].extend(t1["crashes"])
             for k, v in t1["known"].items():
                 total["known"][k] = total["known"].get(k, 0) + v
-    bad = [parse_bad(v) for v in total["bad"]]
+    bad = [b for v in total["bad"] for b in parse_bad_multi(v)]
     bad = [b for b in bad if relevant(pid, cfg, b)]
 
     def handle_propfails(blist, label):
@@ -443,7 +450,7 @@ def main():
         search_runs = [(h, m, f, c * (4 if tier == "quick" else 1)) for (h, m, f, c) in runs]
         for s2 in range(seed + 101, seed + 104):
             t2 = correspondence(exe_by_name, search_runs, s2, [])
-            b2 = [parse_bad(v) for v in t2["bad"]]
+            b2 = [b for v in t2["bad"] for b in parse_bad_multi(v)]
             b2 = [b for b in b2 if relevant(pid, cfg, b)]
             for b in b2:
                 if b["kind"] == "KNOWN" and not (known.get(b["detail"].split(" ")[0], {}).get("status") == "open"):
